@@ -157,24 +157,34 @@ def formatSteps (cu : Culture) (used : Nat) (get : Getter) : List Step → Text 
 def asciiLower (c : Char) : Char :=
   if 65 ≤ c.toNat ∧ c.toNat ≤ 90 then Char.ofNat (c.toNat + 32) else c
 
-/-- `_match_case_insensitive(match, move_on_success)`: the remaining text when it matches -/
-def matchCI (s l : Text) : Option Text :=
+def lookupFold (c : Char) : List (Char × Char) → Option Char
+  | [] => none
+  | (a, b) :: t => if a = c then some b else lookupFold c t
+
+/-- `str.lower()` on one character: ASCII by `asciiLower`, other characters by the run's table (a character the table
+    does not list is left alone; the protocol handler answers `!dom` for texts with such characters) -/
+def lowC (cu : Culture) (c : Char) : Char :=
+  if c.toNat < 128 then asciiLower c else (lookupFold c cu.fold).getD c
+
+/-- `_match_case_insensitive(match, move_on_success)` (`substring.lower() == match.lower()`, character by character
+    with the folding `low`): the remaining text when it matches -/
+def matchCI (low : Char → Char) (s l : Text) : Option Text :=
   if s.length > l.length then none
-  else if (l.take s.length).map asciiLower = s.map asciiLower then some (l.drop s.length) else none
+  else if (l.take s.length).map low = s.map low then some (l.drop s.length) else none
 
 /-- `__find_longest_match`: candidates no longer than the best so far are skipped -/
-def findLongest (l : Text) : List Text → Nat → Int → Nat → Int × Nat
+def findLongest (low : Char → Char) (l : Text) : List Text → Nat → Int → Nat → Int × Nat
   | [], _, best, longest => (best, longest)
   | cand :: cs, i, best, longest =>
-    if cand.length ≤ longest then findLongest l cs (i + 1) best longest
-    else if (matchCI cand l).isSome then findLongest l cs (i + 1) i cand.length
-    else findLongest l cs (i + 1) best longest
+    if cand.length ≤ longest then findLongest low l cs (i + 1) best longest
+    else if (matchCI low cand l).isSome then findLongest low l cs (i + 1) i cand.length
+    else findLongest low l cs (i + 1) best longest
 
 /-- `_add_parse_longest_text_action(field, setter, values1, values2)` -/
-def parseLongest (l : Text) (t1 : List Text) (t2 : Option (List Text)) : Option (Int × Text) :=
-  let r1 := findLongest l t1 0 (-1) 0
+def parseLongest (low : Char → Char) (l : Text) (t1 : List Text) (t2 : Option (List Text)) : Option (Int × Text) :=
+  let r1 := findLongest low l t1 0 (-1) 0
   let r2 := match t2 with
-    | some t => findLongest l t 0 r1.1 r1.2
+    | some t => findLongest low l t 0 r1.1 r1.2
     | none => r1
   if r2.1 ≠ -1 then some (r2.1, l.drop r2.2) else none
 
@@ -185,13 +195,13 @@ def parseAmPm (cu : Culture) (count : Nat) (l : Text) : Option (Int × Text) :=
     let sv : Int := if cu.am = [] then 1 else 0
     let sd := if sv = 1 then cu.pm else cu.am
     let sd := if count = 1 then sd.take 1 else sd
-    match matchCI sd l with
+    match matchCI (lowC cu) sd l with
     | some r => some (sv, r)
     | none => some (1 - sv, l)
   else if count = 1 then
-    match matchCI (cu.am.take 1) l with
+    match matchCI (lowC cu) (cu.am.take 1) l with
     | some r => some (0, r)
-    | none => match matchCI (cu.pm.take 1) l with
+    | none => match matchCI (lowC cu) (cu.pm.take 1) l with
       | some r => some (1, r)
       | none => none
   else
@@ -199,27 +209,27 @@ def parseAmPm (cu : Culture) (count : Nat) (l : Text) : Option (Int × Text) :=
     let longer := if pmLonger then cu.pm else cu.am
     let shorter := if pmLonger then cu.am else cu.pm
     let lv : Int := if pmLonger then 1 else 0
-    match matchCI longer l with
+    match matchCI (lowC cu) longer l with
     | some r => some (lv, r)
-    | none => match matchCI shorter l with
+    | none => match matchCI (lowC cu) shorter l with
       | some r => some (1 - lv, r)
       | none => none
 
 /-- the first entry of `names` that matches case-insensitively: the remaining text -/
-def firstMatchCI (l : Text) : List Text → Option Text
+def firstMatchCI (low : Char → Char) (l : Text) : List Text → Option Text
   | [] => none
   | n :: ns =>
-    match matchCI n l with
+    match matchCI low n l with
     | some r => some r
-    | none => firstMatchCI l ns
+    | none => firstMatchCI low l ns
 
 /-- `_LocalDateParseBucket._parse_era` for the ISO calendar: the eras in `eras()` order, the culture's names of
     each in the order `get_era_names` lists them; the value is the era's index -/
 def parseEra (cu : Culture) (l : Text) : Option (Int × Text) :=
-  match firstMatchCI l cu.eraNamesBCE with
+  match firstMatchCI (lowC cu) l cu.eraNamesBCE with
   | some r => some (0, r)
   | none =>
-    match firstMatchCI l cu.eraNamesCE with
+    match firstMatchCI (lowC cu) l cu.eraNamesCE with
     | some r => some (1, r)
     | none => none
 
@@ -280,11 +290,11 @@ def parseStep (cu : Culture) (l : Text) (b : Bucket) : Step → R (Option (Bucke
   | .monthText count =>
     let g := monthTable cu count true
     let n := monthTable cu count false
-    match parseLongest l g (if n = g then none else some n) with
+    match parseLongest (lowC cu) l g (if n = g then none else some n) with
     | some (i, r) => .ok (some (b.set .monthText i, r))
     | none => .ok none
   | .dayText count =>
-    match parseLongest l (dayTable cu count) none with
+    match parseLongest (lowC cu) l (dayTable cu count) none with
     | some (i, r) => .ok (some (b.set .dayOfWeek i, r))
     | none => .ok none
   | .era =>
@@ -292,7 +302,7 @@ def parseStep (cu : Culture) (l : Text) (b : Bucket) : Step → R (Option (Bucke
     | some (v, r) => .ok (some (b.set .era v, r))
     | none => .ok none
   | .eraC cal =>
-    match firstMatchCI l (eraNamesOf cu (eraIdOfCal cal)) with
+    match firstMatchCI (lowC cu) l (eraNamesOf cu (eraIdOfCal cal)) with
     | some r => .ok (some (b.set .era (eraIdOfCal cal), r))
     | none => .ok none
   | .calendar =>
